@@ -29,13 +29,13 @@ EXPLANATION = (
     'TestRunExitCode.complete, TestRunTAP.complete, TestRun._complete, complete_skip; worlds = members of TestResult x '
     'equality atoms of the exit status x should_fail/console atoms) equal the documented rule, and each complete() of a protocol '
     'class delegates to the next one on every path (CFG), with the chain shape fixed per protocol.  R3b: the timeout table of '
-    'SingleTestRunner.__init__ over the sign classes of its atoms, with symbolic outcomes (None / declared / product).  R3c: the '
+    'SingleTestRunner.__init__ over the sign classes of its atoms, with symbolic outcomes (None / declared / product; float(X) reads as X, int()/round()/math.floor/ceil/trunc of the product is a different outcome while --timeout-multiplier is declared type=float).  R3c: the '
     'serialisation loop iterates the tests parameter through a chain of copies / sorted() / in-place .sort() / reversals whose last sort has a key of negative priority coefficient (descending), no path skips the append, the scheduling '
     'fields land in their TestSerialisation slots.  R4: process_test_result has exactly one `counter += 1` arm per finished '
     'member with the documented grouping, the counters added by total_failure_count are exactly those fed by the members of the '
     'folded is_bad set, doit returns non-zero iff total_failure_count() > 0, the label->counter table of summary agrees and every '
     'positive counter is printed.  R5: test_slice returns (int(part 0), int(part 1)) under the documented guards and get_tests '
-    'selects tests[SLICE-1::NUM_SLICES].  The exit status handed from doit()/run()/run_with_args() to sys.exit is drawn from constants in 0..255, never a count.  R7: in an async function that repeats asyncio.wait/wait_for in a loop with a caller-supplied timeout variable (complete_all), that variable is re-assigned inside the loop from a clock-reading expression (necessary for the total wait to stay within the budget; the arithmetic itself is not decided).  R9: a result is set to TIMEOUT only on CFG paths that call a method from which os.killpg is reached (the killer); in the killer no normal path reaches a return before a group-wide kill primitive on the pid of the child (os.killpg(<child>.pid, ..) / taskkill /T; helper methods that always signal are followed); the preexec_fn handed to create_subprocess_exec skips os.setsid() only on paths that establish options.interactive (directly, or through the decision table of the console_mode property and the constructor argument it reads) - the one atom under which R3b shows the timeout to be None - or the child is started with start_new_session=True.  R6: get_tests builds the selection by filtering one source at a time (no concatenation), and in the selection generator (tests_from_args) no path leads from a `yield <candidate>` to another one without advancing the single loop over the candidates.  In the predicate get_tests filters with (test_suitable) the exclude_suites of the test setup are consulted only on paths where --suite was seen empty.  R8: the default of -j is determine_worker_count([... MESON_TESTTHREADS ...]); in determine_worker_count the count is overwritten inside the loop over the variable names only on paths where the variable is known to be present; the value that sizes the semaphore is validated positive (a -j parser that only returns positive counts, or a guard / max()). All tables are extracted from a normal form (small helpers and starter closures inlined, single-definition locals and tuple unpackings propagated, walrus / conditional values / list comprehensions desugared, constant lookup tables unrolled, internal calls bound by signature); a finding is reported only when every construct on the judged path was classified.  NOT decided: asyncio interleavings beyond this await protocol; which signals TestSubprocess._kill escalates through after the first group-wide one (SIGTERM -> SIGKILL -> p.kill(), the grace periods, the ProcessLookupError arm) and that the signalled processes really die (runtime process semantics); that every process a test starts stays in its '
+    'selects tests[SLICE-1::NUM_SLICES].  The exit status handed from doit()/run()/run_with_args() to sys.exit is drawn from constants in 0..255, never a count.  R7: in an async function that repeats asyncio.wait/wait_for in a loop with a caller-supplied timeout variable (complete_all), that variable is re-assigned inside the loop from a clock-reading expression (necessary for the total wait to stay within the budget; the arithmetic itself is not decided).  R9: a result is set to TIMEOUT only on CFG paths that call a method from which os.killpg is reached (the killer); in the killer no normal path reaches a return before a group-wide kill primitive on the pid of the child (os.killpg(<child>.pid, ..) / taskkill /T; helper methods that always signal are followed); the preexec_fn handed to create_subprocess_exec skips os.setsid() only on paths that establish options.interactive (directly, or through the decision table of the console_mode property and the constructor argument it reads) - the one atom under which R3b shows the timeout to be None - or the child is started with start_new_session=True.  R6: get_tests builds the selection by filtering one source at a time (no concatenation), and in the selection generator (tests_from_args) no path leads from a `yield <candidate>` to another one without advancing the single loop over the candidates.  In the predicate get_tests filters with (test_suitable) the exclude_suites of the test setup are consulted only on paths where --suite was seen empty.  R8: the default of -j is determine_worker_count([... MESON_TESTTHREADS ...]); in determine_worker_count the count is overwritten inside the loop over the variable names only on paths where the variable is known to be present; the value that sizes the semaphore is validated positive (a -j parser that only returns positive counts, or a guard / max()). All tables are extracted from a normal form (small helpers and starter closures inlined, single-definition locals and tuple unpackings propagated, walrus / conditional values / list comprehensions desugared, constant lookup tables unrolled, internal calls bound by signature); a finding is reported only when every construct on the judged path was classified.  NOT decided: asyncio interleavings beyond this await protocol; the suite matcher TestHarness.test_in_suites (that its two nested search loops answer False only after every requested suite was compared with every suite of the test - seed C12-r7-3 - is an exists-loop table no rule of this pack extracts yet); a serialisation loop rewritten as list(map(<closure>, sorted(..))) ends Undecided in R3c; which signals TestSubprocess._kill escalates through after the first group-wide one (SIGTERM -> SIGKILL -> p.kill(), the grace periods, the ProcessLookupError arm) and that the signalled processes really die (runtime process semantics); that every process a test starts stays in its '
     'process group; --maxfail timing; the composed end-to-end value of complete() for a concrete run (only the per-method tables '
     'and their chaining); the rendered text of summary(); the partition property of --slice as such (only the offset/stride roles).')
 ASSUMPTIONS = [
@@ -999,6 +999,17 @@ def r2(ctx: RuleCtx) -> None:
                 for t in st.targets:
                     if isinstance(t, ast.Name) and t.id in nl:
                         flags.add(t.id)
+    # the same flag held in an Event object: `<local> = asyncio.Event()` in _run_tests, `.set()` in a nested function, never `.clear()`ed;
+    # its test is `<local>.is_set()` (the flag texts below are the expressions whose falsity a path must have seen)
+    events = {st.targets[0].id for st in walk_no_nested(s.fn) if isinstance(st, ast.Assign) and len(st.targets) == 1 and isinstance(st.targets[0], ast.Name)
+              and isinstance(st.value, ast.Call) and call_name(st.value) in ('asyncio.Event', 'threading.Event') and not st.value.args and not st.value.keywords}
+    for ev_name in sorted(events):
+        stores = [x for x in ast.walk(s.fn) if isinstance(x, ast.Name) and x.id == ev_name and isinstance(x.ctx, ast.Store)]
+        meths = {c.func.attr for c in ast.walk(s.fn) if isinstance(c, ast.Call) and isinstance(c.func, ast.Attribute) and isinstance(c.func.value, ast.Name) and c.func.value.id == ev_name}
+        set_nested = any(isinstance(c, ast.Call) and isinstance(c.func, ast.Attribute) and c.func.attr == 'set' and isinstance(c.func.value, ast.Name) and c.func.value.id == ev_name and not c.args
+                         for n in s.nested.values() for c in ast.walk(n))
+        if len(stores) == 1 and set_nested and 'clear' not in meths:
+            flags.add(f'{ev_name}.is_set()')
     n_runs = 0
     for cname, (cl, p) in s.closures.items():
         cq = f'{fq}.{cname}'
@@ -1049,7 +1060,7 @@ def r2(ctx: RuleCtx) -> None:
             idx = min(i for i, ev in enumerate(pth.events) if any(isinstance(c, ast.Call) and is_run(c) for r in _event_roots(ev) for c in walk_no_nested(r)))
             seen = {norm(ev.node): ev.val for ev in pth.events[:idx] if ev.kind == 'cond'}
             if not any(seen.get(f) is False for f in flags):
-                opaque = [ev.node for ev in pth.events[:idx] if ev.kind == 'cond' and any(isinstance(c, ast.Call) for c in ast.walk(ev.node))]
+                opaque = [ev.node for ev in pth.events[:idx] if ev.kind == 'cond' and norm(ev.node) not in flags and any(isinstance(c, ast.Call) for c in ast.walk(ev.node))]
                 if opaque:
                     raise Undecided(f'{cq}: `{short(opaque[0])}` is tested before {p}.run(); it may consult the cancellation flag')
                 bad = pth
@@ -1773,6 +1784,16 @@ def r3a(ctx: RuleCtx) -> None:
 # R3b: timeout table
 # ---------------------------------------------------------------------------
 
+ROUNDERS = ('int', 'round', 'math.floor', 'math.ceil', 'math.trunc')
+
+
+def _float_option(mod: Module, flag: str) -> bool:
+    """The command-line option `flag` is declared with type=float (argparse table of the module)."""
+    decls = [c for c in ast.walk(mod.tree) if isinstance(c, ast.Call) and call_method(c) == 'add_argument'
+             and any(isinstance(a, ast.Constant) and a.value == flag for a in c.args)]
+    return len(decls) == 1 and isinstance(kwarg(decls[0], 'type'), ast.Name) and T.cast(ast.Name, kwarg(decls[0], 'type')).id == 'float'
+
+
 def r3b(ctx: RuleCtx) -> None:
     mod = _module(ctx, MTEST)
     init, expr, cls = _testrun_arg(mod, 'timeout')
@@ -1855,7 +1876,17 @@ def r3b(ctx: RuleCtx) -> None:
         outs = set()
         for r in fired:
             g = got_of(r)
-            if g != '<unset>' and any(isinstance(n, ast.Call) for n in ast.walk(ast.parse(g, mode='eval'))):
+            if g != '<unset>':
+                # symbolic outcome: float(X) is X; a whole-number coercion of the product is not the product when the multiplier is declared
+                # as a float option (the limit of a test with a fractional multiplier is cut short / stretched): named outcome, compared below
+                ge = ast.parse(g, mode='eval').body
+                while isinstance(ge, ast.Call) and call_name(ge) == 'float' and len(ge.args) == 1 and not ge.keywords:
+                    ge = ge.args[0]
+                g = norm(ge)
+                if isinstance(ge, ast.Call) and call_name(ge) in ROUNDERS and len(ge.args) == 1 and not ge.keywords \
+                        and norm(ge.args[0]) in (f'{TO} * {MU}', f'{MU} * {TO}') and _float_option(mod, '--timeout-multiplier'):
+                    g = f'product coerced to a whole number by {call_name(ge)}()'
+            if g != '<unset>' and not g.startswith('product coerced') and any(isinstance(n, ast.Call) for n in ast.walk(ast.parse(g, mode='eval'))):
                 raise Undecided(f'{where}: the timeout is computed by {g}, which this rule cannot see into')
             if g in (f'{TO} * {MU}', f'{MU} * {TO}'):
                 g = 'product'
@@ -1867,7 +1898,7 @@ def r3b(ctx: RuleCtx) -> None:
             raise Undecided(f'SingleTestRunner.__init__: several rows fire for {world}: {sorted(outs)}')
         elif outs != {want}:
             got_ = next(iter(outs))
-            understood = got_ in ('None', '<unset>', TO, MU, 'product') or (all(isinstance(n, (ast.Expression, ast.BinOp, ast.operator, ast.Attribute, ast.Name, ast.Load, ast.Constant, ast.UnaryOp, ast.unaryop, ast.BoolOp, ast.boolop, ast.Compare, ast.cmpop))
+            understood = got_ in ('None', '<unset>', TO, MU, 'product') or got_.startswith('product coerced') or (all(isinstance(n, (ast.Expression, ast.BinOp, ast.operator, ast.Attribute, ast.Name, ast.Load, ast.Constant, ast.UnaryOp, ast.unaryop, ast.BoolOp, ast.boolop, ast.Compare, ast.cmpop))
                                                                                  for n in ast.walk(ast.parse(got_, mode='eval')))
                                                                              and names_in(ast.parse(got_, mode='eval')) <= {'test', 'options'})
             if not understood:
